@@ -62,6 +62,12 @@ func (rf *Ref) Eval(e *gram.Expr, pos int) []Res {
 			return []Res{{t, pos + len(e.S)}}
 		}
 		return nil
+	case gram.OpMark:
+		t := ""
+		if !rf.EndsOnly {
+			t = fmt.Sprintf("MARK@%d", pos)
+		}
+		return []Res{{t, pos}}
 	case gram.OpEmpty:
 		t := ""
 		if !rf.EndsOnly {
